@@ -339,7 +339,7 @@ def _mirsym():
         assumptions=["n >= 1 (LIMIT 0 never reaches TopN: outside the claim)"])
     ostub = ["Scratchpad accessors -> obligation-owned buffers"]
     add("C05.f/select", "C05", "mirsym", Q, "Select<i64> / SelectNullable<i64>::execute (payload columns following the ORDER BY / top-n permutation): output row j == input row indices[j], with its NULL flag",
-        ["<Select<T> as VecOperator>::execute", "<SelectNullable<T> as VecOperator>::execute"], bounds="(rows, indices) in {(3,2),(2,0),(3,3)} quick + {(1,1),(4,2),(10,3),(9,9)} thorough; data, indices (< rows) and null map symbolic",
+        ["<Select<T> as VecOperator>::execute", "<SelectNullable<T> as VecOperator>::execute"], bounds="(rows, indices) in {(3,2),(2,0),(3,3)} quick + {(1,1),(4,2)} thorough; data, indices (< rows) and null map symbolic",
         spec=so3.SelectSpec(), stubs=ostub)
     add("C05.f/select_nullable", "C05", "mirsym", Q, "SelectNullable<i64>::execute: values and NULL flags follow the index permutation",
         ["<SelectNullable<T> as VecOperator>::execute", "bitvec::{BitVec::is_set,BitVecMut::set}"], bounds="same shapes as C05.f/select; null map bytes symbolic", spec=so3.SelectNullableSpec(), stubs=ostub)
@@ -357,9 +357,9 @@ def _mirsym():
         assumptions=["components are non-negative and below 2^width; total width <= 63 (what try_bitpacking guarantees; its width arithmetic uses f64 log2 and is not encoded)"])
     for pid, tag in (("C05", "C05.h"), ("C04", "C04.h")):
         add(f"{tag}/fuse_nulls_i64", pid, "mirsym", Q, "FuseNullsI64::execute: value if present, the in-band NULL marker otherwise (so that NULL sorts last / groups together)",
-            ["<FuseNullsI64 as VecOperator>::execute"], bounds="0,3,9 rows (quick) / 0,1,3,8,9,17 (thorough); values and null map symbolic", spec=so3.FuseNullsI64Spec(), stubs=ostub)
+            ["<FuseNullsI64 as VecOperator>::execute"], bounds="0,3,9 rows (quick) / 0,1,3,8,9 (thorough); values and null map symbolic", spec=so3.FuseNullsI64Spec(), stubs=ostub)
         add(f"{tag}/unfuse_nulls_i64", pid, "mirsym", Q, "UnfuseNullsI64::execute: a row is present exactly when its fused value is not the NULL marker",
-            ["<UnfuseNullsI64 as VecOperator>::execute"], bounds="0,3,8 rows (quick) / 0,1,3,7,8,9,16 (thorough); fused values symbolic", spec=so3.UnfuseNullsI64Spec(), stubs=ostub)
+            ["<UnfuseNullsI64 as VecOperator>::execute"], bounds="0,3,8 rows (quick) / 0,1,3,7,8,9 (thorough); fused values symbolic", spec=so3.UnfuseNullsI64Spec(), stubs=ostub)
     add("C04.i/compact_nullable", "C04", "mirsym", Q, "CompactNullable / CompactWithNullable / CompactNullableNullable<i64,u8>::execute: exactly the aggregate slots of existing groups survive, in order, each with its own NULL flag",
         ["<CompactNullable<T,U> as VecOperator>::execute", "<CompactWithNullable<T,U>>::execute", "<CompactNullableNullable<T,U>>::execute", "bitvec::{is_set,set,unset}"],
         bounds="0,3,9 slots (quick) / 0-4,9 (thorough); values, selectors and both null maps symbolic", spec=so3.CompactNullableFamilySpec(), stubs=ostub)
